@@ -1,10 +1,48 @@
 import PhysisModel.Base.Proto
+import PhysisModel.Base.FsText
+import PhysisModel.Model.Patch
+import PhysisModel.Model.PatchWriter
+import PhysisModel.Spec.ZiPatchCreate
 namespace Physis.Driver.C04
-open Physis Physis.Proto
+open Physis Physis.Proto Physis.Fs Physis.FsText
 
-/-- one case line in, one answer line out (see `Base/Proto.lean`) -/
+def outcomeStr : Patch.Outcome → String
+  | .ok => "ok" | .parseError => "err:ParseError" | .ioError => "err:InvalidPatchFile" | .panic => "panic"
+
+def stripKey (k : String) (s : String) : Option String :=
+  if s.startsWith (k ++ "=") then some (s.drop (k.length + 1)).toString else none
+
+/-- `pair a=<tree> b=<tree>`: create the patch from (A, B), apply it to a copy of A, print the
+regular files; `pure=1` = A and B are unchanged by `create`. -/
 def handle (line : String) : String :=
   match fields line with
+  | ["pair", a, b] =>
+    match (stripKey "a" a).bind parseTree, (stripKey "b" b).bind parseTree with
+    | some A, some B =>
+      let la := files A
+      let lb := files B
+      if !Spec.ZiPatchCreate.Inputs A lb then bad else
+      let expected := "ok files=" ++ showTree (lb.map fun e => (e.1, Node.file e.2)) false ++ " pure=1"
+      let model := match Patch.createSeek la lb with
+        | none => "none"
+        | some patch =>
+          let (o, T) := Patch.apply (fun _ _ => none) patch A
+          outcomeStr o ++ " files=" ++ showTree T false ++ " pure=1"
+      answer "=" expected (if la.isEmpty && lb.isEmpty then ["triv"] else []) (some model)
+    | _, _ => bad
+  | ["cbytes", a, b] =>
+    -- tie of the writer model to the code: the bytes of the created patch (listing order forced:
+    -- at most one regular file per side)
+    match (stripKey "a" a).bind parseTree, (stripKey "b" b).bind parseTree with
+    | some A, some B =>
+      let la := files A
+      let lb := files B
+      if la.length > 1 || lb.length > 1 || !Spec.ZiPatchCreate.Inputs A lb then bad else
+      let m := match Patch.createSeek la lb with
+        | none => "none"
+        | some patch => "patch=" ++ showContent patch
+      answer "=" m [] (some m)
+    | _, _ => bad
   | _ => bad
 
 end Physis.Driver.C04
